@@ -535,7 +535,9 @@ def purge(node: dawgie.pl.dag.Node, target: str):
         node.get('todo').remove(target)
 
     for child in node:
-        purge(child, target)
+        # an algorithm that reads its own output is its own child
+        if child.tag != node.tag:
+            purge(child, target)
 
     if node in que and _is_idle(node):
         que.remove(node)
